@@ -698,13 +698,58 @@ def has_base(p):
     return p[0] == "b" or (p[0] not in ("p", "n", "c") and any(has_base(x) for x in p[1:]))
 
 
+def ast_items(a, level=0):
+    """spec AST -> token texts with the parentheses MCNP needs (level 0 expression, 1 term, 2 factor)"""
+    k = a[0]
+    if k == "leaf":
+        return [("-" if a[1] < 0 else "") + str(a[2])]
+    if k == "cell":
+        return ["#%d" % a[1]]
+    if k == "not":
+        return ["#("] + ast_items(a[1], 0) + [")"]
+    if k == "and":
+        it = ast_items(a[1], 1) + ast_items(a[2], 2)
+        return it if level <= 1 else ["("] + it + [")"]
+    it = ast_items(a[1], 0) + [":"] + ast_items(a[2], 1)
+    return it if level == 0 else ["("] + it + [")"]
+
+
+def smaller_asts(a):
+    """the AST with one node replaced by one of its children"""
+    k = a[0]
+    if k in ("leaf", "cell"):
+        return
+    for x in a[1:]:
+        yield x
+    for i in range(1, len(a)):
+        for y in smaller_asts(a[i]):
+            yield a[:i] + (y,) + a[i + 1:]
+
+
 def shrink(case, failing):
     cur = dict(case)
-    if cur.get("base_lines"):
+    if cur.get("base_lines") and not cur.get("base_read_lines"):
         try:
             cand = dict(cur, base_lines=plain_lines(canon(geom_tokens(cur["base_lines"]))))
             if failing(cand):
                 cur = cand
+        except Exception:
+            pass
+        # smaller geometry text: sub-expressions of what was read, written canonically
+        try:
+            ast = spec.parse_geometry(geom_tokens(cur["base_lines"]))
+            n = 0
+            changed = True
+            while changed and n < 150:
+                changed = False
+                for sub in smaller_asts(ast):
+                    n += 1
+                    cand = dict(cur, base_lines=wrap_items(ast_items(sub)))
+                    if failing(cand):
+                        cur, ast, changed = cand, sub, True
+                        break
+                    if n >= 150:
+                        break
         except Exception:
             pass
     changed = True
